@@ -22,11 +22,14 @@ package state
 //@   ensures err == nil ==> result0 != nil && fresh(result0)
 
 //@ func ImmutableState.RuntimeState
-//@   trusted
+//@   props C10 C08
+//@   trustframe
 //@   modifies nothing
-//@   ensures err != nil ==> result0 == nil
-//@   ensures err == nil ==> result0 != nil && result0.Runtime != nil
+//@   ensures-trusted err != nil ==> result0 == nil
+//@   ensures-trusted err == nil ==> result0 != nil && result0.Runtime != nil
 //@   note decodes the stored runtime state (CBOR); a stored state always carries its runtime descriptor
+//@   precall \)\.Get$ :: keyId(argAs[[]byte](1)) == keyOf(runtimeKeyFmt, id)
+//@   note partially verified: the state-tree key this accessor reads or writes is checked (call-site obligation); the meaning of the stored bytes (CBOR round trip) stays assumed (ensures-trusted)
 
 //@ func MutableState.SetIncomingMessageInQueue
 //@   props C08
